@@ -206,3 +206,15 @@ PROPS["C02"] = dict(
                  "1-3 tail bytes unencrypted (StormLib's documented behaviour)"],
     drivers=[drivers.c02_driver],
 )
+
+PROPS["C06"] = dict(
+    rule="histories of 1..12 (4 in 5) or 30..70 (1 in 5) operations over {add (none/zlib/bzip2/lzma/sparse x plain/encrypted/FIX_KEY x replace flag), remove, rename, compact, flush, close+reopen} on builder-made archives V1..V4, with/without (listfile) and (attributes), 0..10 initial files; names from a pool with two groups colliding on one home slot of a 16-slot table (one group on the last slot, so probes wrap), names that are substrings of one another, and enough fillers to exhaust the hash table. After every close+reopen and at the end every pool name is read through Archive::open and compared with a BTreeMap, the listing with its key set, in-session find_file with its membership; each history runs on a worker thread with a 30 s limit. For archives without (attributes) the whole history is replayed by the Lean model and every hash slot, block entry and header position on disk after each flush/reopen/compact is compared. non-trivial = a history that passed all comparisons; distinct by FNV hash of its description",
+    trusted_base=COMMON_TB + [
+        "the model follows modification.rs function by function; compact's rebuilt layout is taken from the file (the builder is C01's subject) and only its key set and sizes are compared with the model's prediction",
+        "stored (compressed) lengths are computed by the harness with the crate's own compress() and passed to the model; the model does not model the codecs",
+        "archives with (attributes) are covered by the map oracle only (the attributes file's size is time- and flag-dependent)",
+        "HomeOk: the offset hash is a function of the (A,B) hash pair on the names in play (true unless two names collide in 64 bits of hash yet differ in the third)",
+    ],
+    assumptions=["in-session read_file is not compared (the statement speaks of the state after close+reopen); in-session find_file is",
+                 "a failed operation may leave the file layout changed (rename of an encrypted file flushes first) as long as the map is unchanged"],
+)
